@@ -12,8 +12,11 @@ namespace c05 {
 // until the orchestrator's wall-clock watchdog.  ITIMER_PROF counts CPU time of the process, so machine load cannot fire it;
 // a normal case needs ~10-50 ms.  The message imitates a terminate() line so that the orchestrator derives a stable,
 // descriptive signature; the history of the case is flushed like for any fatal signal.
+// Big-prime configurations: Zp_field_operators::set_characteristic builds its table of inverses by trial multiplication,
+// O(p^2): ~5-9 s of CPU for p around 2^16, ~30 s for 131071, so the guard is sized by the prime.
 static const int WD_SECONDS = 20;
 static const char* g_wd_what = "";
+static int g_wd_seconds = WD_SECONDS;
 static const char* const* g_wd_call = nullptr;
 
 static void wd_handler(int) {
@@ -21,7 +24,7 @@ static void wd_handler(int) {
   int n = snprintf(buf, sizeof buf,
                    "\nterminate called after throwing an instance of 'c05::cpu_watchdog[%s,call=%s]'\n"
                    "  the case used more than %d s of CPU time: non-terminating operation\n",
-                   g_wd_what, g_wd_call && *g_wd_call ? *g_wd_call : "?", WD_SECONDS);
+                   g_wd_what, g_wd_call && *g_wd_call ? *g_wd_call : "?", g_wd_seconds);
   if (n > 0) { ssize_t w = ::write(2, buf, (size_t)n); (void)w; }
   vh::dump_history_on_fatal();
   _exit(86);
@@ -33,14 +36,22 @@ static void wd_arm(int seconds) {
   setitimer(ITIMER_PROF, &it, nullptr);
 }
 
-void run_history(vh::Case& c, const char* cfg, const Traits& t, MatrixIO& io) {
-  Run run(c, cfg, t, io);
-  static char what[64];
-  snprintf(what, sizeof what, "fl=%s,field=%s", t.fl == F_BND ? "boundary" : t.fl == F_RU ? "ru" : "chain", t.z2 ? "z2" : "zp");
+void run_history(vh::Case& c, const char* cfg, const Traits& t, MatrixIO& io, int mode) {
+  Run run(c, cfg, t, io, mode);
+  g_wd_seconds = WD_SECONDS;
+  if (mode == MODE_BIG_PRIMES) {
+    // every prime of the list in turn (case index), so that a run of >= 7 (quick) / 8 (thorough) cases has them all
+    static const long big[8] = {251, 32749, 46349, 65521, 65537, 65539, 70001, 131071};
+    run.p_forced = big[c.k % (c.thorough ? 8 : 7)];
+    g_wd_seconds = run.p_forced < 1000 ? WD_SECONDS : run.p_forced < 100000 ? 40 : 150;
+  }
+  static char what[96];
+  snprintf(what, sizeof what, "fl=%s,field=%s%s", t.fl == F_BND ? "boundary" : t.fl == F_RU ? "ru" : "chain", t.z2 ? "z2" : "zp",
+           run.p_forced > 65536 ? ",prime=above_65536" : "");
   g_wd_what = what;
   g_wd_call = &run.cur_call;
   signal(SIGPROF, wd_handler);
-  wd_arm(WD_SECONDS);
+  wd_arm(g_wd_seconds);
   run.run();
   wd_arm(0);
   g_wd_call = nullptr;
